@@ -15,7 +15,7 @@ def scenario(n, single, slice_, lazy=(), wrap=None, fail=None, self_opt=None, sl
                 order=list(order or range(1, n + 1)), regOrder=list(reg_order or range(1, n + 1)),
                 lookups=list(lookups), seed=seed, sparse=sparse, procs=list(procs), mode=list(mode or ["normal"] * n), quiet=quiet, runners=sorted(runners),
                 rorder=[x for x in (order or range(1, n + 1)) if x in set(runners)], all=all_,
-                ilook=list(ilook or [0] * n), extra=False)      # ilook[n-1] = t: the component's Init() looks component t up by name
+                ilook=list(ilook or [0] * n), extra=False, plainRig=False)      # ilook[n-1] = t: the component's Init() looks component t up by name
 
 
 def rand_scenario(rng, n, p_edge=0.35, p_slice=0.3, wraps=False, fails=False, lazies=False, lookups=0,
@@ -68,6 +68,9 @@ def rand_scenario(rng, n, p_edge=0.35, p_slice=0.3, wraps=False, fails=False, la
                 il[i] = rng.choice(lazy) if lazy and rng.random() < 0.6 else rng.randint(1, n)
     sc = scenario(n, single, slc, lazy, wrap, fail, self_opt, slice_opt, order, reg, lk,
                   seed=rng.randint(0, 2 ** 31), sid=sid, procs=pr, mode=md, quiet=rng.random() < 0.3, runners=rn, ilook=il)
+    # with no substitution at early-reference time the harness processor may be a plain one: then nothing in the application
+    # implements GetEarlyBeanReference (a substitution AFTER initialisation must still be noticed in a cycle)
+    sc["plainRig"] = all(w in ("none", "after") for w in wrap) and rng.random() < 0.5
     sc["extra"] = rng.random() < 0.25      # the second public by-type collector registered as well: candidates arrive twice (fix F13 keeps the first)
     return sc
 
